@@ -121,7 +121,7 @@ func c12BreakerPerMethod(t *testing.T, kind string) {
 		prefix = "C12:kv:breaker"
 	} else {
 		side, _ = c12RedisSide(w, false)
-		if node, err = redis.CreateBlockingNode(redis.New(w.shards[0].Addr())); err != nil {
+		if node, err = redis.CreateBlockingNode(redis.New(w.shards[0].Addr(), redis.WithPass(w.pass))); err != nil {
 			m.Inconclusive("CreateBlockingNode: %v", err)
 			return
 		}
